@@ -109,12 +109,78 @@ theorem make_inv (σ : Store) (a : Nat) (kind : String) (kids : List Ast) (rootF
   have hR : (makeKids σ rootF kids).fst rootF = σ.fst rootF := hfr.fst_old rootF hF
   simp only [LinkInv, linkInvB, linkedB, Ast.id, hA, hR, hr.1, hr.2.1, hr.2.2, beq_self_eq_true, Bool.true_and, hl]
 
+/-- **unmake_frame**: `_unmake_fst_tree` writes nothing outside the detached subtree: `a.f` of every AST that is not in
+the subtree is unchanged, every FST record that is not the `a.f` of an AST of the subtree is unchanged, and no object is
+created. Any store, any subtree. -/
+theorem unmake_frame (σ : Store) (t : Ast) :
+    (∀ x, x ∉ ids t → (unmake σ t).astF x = σ.astF x) ∧
+    (∀ g, (∀ x ∈ ids t, σ.astF x ≠ some g) → (unmake σ t).fst g = σ.fst g) ∧
+    (unmake σ t).next = σ.next :=
+  ⟨unmake_astF_frame t σ, unmake_fst_frame t σ, unmake_next t σ⟩
+
+mutual
+private theorem linked_back (σ : Store) : ∀ (t : Ast) (pf : Option Nat), linkedB σ pf t = true →
+    ∀ x ∈ ids t, ∀ f, σ.astF x = some f → (σ.fst f).a = some x
+  | .mk a _ fld kids, pf, h, x, hx, f, hf => by
+    simp only [linkedB] at h
+    simp only [ids, List.mem_cons] at hx
+    cases hg : σ.astF a with
+    | none => simp [hg] at h
+    | some g =>
+      simp only [hg, Bool.and_eq_true, beq_iff_eq] at h
+      cases hx with
+      | inl e =>
+        subst e
+        rw [hg] at hf
+        cases hf
+        exact h.1.1.1
+      | inr hk => exact linkedList_back σ kids (some g) h.2 x hk f hf
+private theorem linkedList_back (σ : Store) : ∀ (l : List Ast) (pf : Option Nat), linkedListB σ pf l = true →
+    ∀ x ∈ idsList l, ∀ f, σ.astF x = some f → (σ.fst f).a = some x
+  | [], _, _, x, hx, _, _ => by simp [idsList] at hx
+  | k :: rest, pf, h, x, hx, f, hf => by
+    simp only [linkedListB, Bool.and_eq_true] at h
+    simp only [idsList, List.mem_append] at hx
+    cases hx with
+    | inl h0 => exact linked_back σ k pf h.1 x h0 f hf
+    | inr h1 => exact linkedList_back σ rest pf h.2 x h1 f hf
+end
+
+/-- **linked_injective**: in a linked tree two different ASTs never share an FST object (`a ↦ a.f` is injective),
+because each FST points back at its own AST. -/
+theorem linked_injective (σ : Store) (t : Ast) (pf : Option Nat) (h : linkedB σ pf t = true) :
+    ∀ x ∈ ids t, ∀ y ∈ ids t, ∀ f, σ.astF x = some f → σ.astF y = some f → x = y := by
+  intro x hx y hy f hfx hfy
+  have h1 := linked_back σ t pf h x hx f hfx
+  have h2 := linked_back σ t pf h y hy f hfy
+  rw [h1] at h2
+  exact Option.some.inj h2
+
+/-- **unmake_keeps_linked**: the step that was missing for `_set_ast` / `_set_field` away from the root. Unmaking a
+linked subtree `t` leaves every other linked subtree `u` that shares no AST with it (a sibling, an element of another
+field, the spine above) linked exactly as it was: the FSTs of `u` are not FSTs of `t` (each points back at its own
+AST), so `_unmake_fst_tree` writes none of them. Any store, any two subtrees. -/
+theorem unmake_keeps_linked (σ : Store) (t u : Ast) (pt pu : Option Nat)
+    (ht : linkedB σ pt t = true) (hu : linkedB σ pu u = true) (hd : ∀ x ∈ ids u, x ∉ ids t) :
+    linkedB (unmake σ t) pu u = true := by
+  have hbu := linked_back σ u pu hu
+  have hbt := linked_back σ t pt ht
+  refine linkedB_congrP σ (unmake σ t) (fun g => ∀ y ∈ ids t, σ.astF y ≠ some g) u pu
+    (fun x hx => unmake_astF_frame t σ x (hd x hx)) ?_ (fun g hg => unmake_fst_frame t σ g hg) hu
+  intro x hx f hf y hy hfy
+  have h1 := hbu x hx f hf
+  have h2 := hbt y hy f hfy
+  rw [h1] at h2
+  have : x = y := Option.some.inj h2
+  exact hd x hx (this ▸ hy)
+
 /- Full statement (checked by the executable `linkInvB` on every graph dumped after every edit and after every direct
 `_set_ast` call, not proved in general position):
   theorem setAst_inv (s) (f) (new) : LinkInv s → f is the FST of a node of s.root → new fresh and Nodup →
       LinkInv (setAst s f new)
-What is missing for the general position: that unmaking the old subtree and making the new one leaves the links of
-the remaining tree intact needs injectivity of `a ↦ a.f` on the old tree (a consequence of LinkInv + Nodup). -/
+Proved towards the general position: `linked_injective` (injectivity of `a ↦ a.f` on a linked tree) and
+`unmake_keeps_linked` (unmaking the old subtree leaves every disjoint linked subtree linked). Still missing: the
+composition along the spine from the root to `f` (re-linking the spine node's child list around the new subtree). -/
 /-- **setAst_inv (root position)**: replacing the AST under the root FST by a fresh tree (pairwise distinct ASTs
 without FSTs) re-establishes the link invariant, and the root FST object is the same object as before: the old tree is
 unmade (see `unmake_dead`), the root FST is kept, new FSTs are made below it. -/
@@ -426,6 +492,14 @@ example : LinkInv s2 ∧ s2.σ.astF 10 = some 3 ∧ (s2.σ.fst 4).a = none ∧ (
 -- `_set_field` of `Module.body` with two fresh statements
 private def s3 : State := setField s2 0 "body" true [ .mk 20 "Pass" none [], .mk 21 "Expr" none [ .mk 22 "Name" (fld "value") [] ] ]
 example : LinkInv s3 ∧ (s3.σ.fst 1).a = none ∧ (s3.σ.fst 3).a = none := by unfold LinkInv; decide
+-- `unmake_keeps_linked`: unmaking the List `[a, b]` (AST 3) leaves the sibling target Name (AST 2) linked below FST 1,
+-- and the hypotheses are met by the real state s1; the unmade elements are dead
+private def listSub : Ast := .mk 3 "List" (fld "value") [ .mk 4 "Name" (fld "elts" (some 0)) [], .mk 5 "Name" (fld "elts" (some 1)) [] ]
+private def nameSub : Ast := .mk 2 "Name" (fld "targets" (some 0)) []
+example : linkedB s1.σ (some 1) listSub = true ∧ linkedB s1.σ (some 1) nameSub = true ∧
+    (∀ x ∈ ids nameSub, x ∉ ids listSub) := by decide
+example : linkedB (unmake s1.σ listSub) (some 1) nameSub = true ∧ (unmake s1.σ listSub).astF 4 = none ∧
+    linkedB (unmake s1.σ listSub) (some 1) listSub = false := by decide
 -- root position of `setAst_inv_partial`
 example : s1.rootF < s1.σ.next ∧ (s1.σ.fst s1.rootF).a = some s1.root.id ∧ (s1.σ.fst s1.rootF).parent = none := by decide
 example : LinkInv (setAst s1 0 (.mk 30 "Module" none [ .mk 31 "Pass" (fld "body" (some 0)) [] ])) := by
